@@ -160,13 +160,18 @@ func (o outcome) same(p outcome) bool {
 }
 
 func execProgram(p *program, dbg interpreter.Debugger) outcome {
+	return execProgramOn(interpreter.NewEngine(), p, dbg)
+}
+
+// execProgramOn executes on a given (possibly shared) engine value.
+func execProgramOn(eng interpreter.Engine, p *program, dbg interpreter.Debugger) outcome {
 	tx, idx, prev := p.context()
 	opts := []interpreter.ExecutionOptionFunc{interpreter.WithTx(tx, idx, prev), interpreter.WithFlags(p.flags)}
 	if dbg != nil {
 		opts = append(opts, interpreter.WithDebugger(dbg))
 	}
 	var err error
-	if pn := catch(func() { err = interpreter.NewEngine().Execute(opts...) }); pn != "" {
+	if pn := catch(func() { err = eng.Execute(opts...) }); pn != "" {
 		return outcome{class: "panic", text: pn}
 	}
 	if err == nil {
